@@ -279,9 +279,20 @@ func runC18(w *world.World, c caseC18, rec *kit.Recorder) error {
 				return fmt.Errorf("harness: %w", err)
 			}
 			branch, _ := m.Ctx.CacheContext()
+			dust := false
+			if n%2 == 1 || n == limit+1 {
+				// the limit holds in every state: also with coins of the transferred denom
+				// already sitting on the orbiter account
+				dm := &kit.Machine{W: w, Ctx: branch, Model: kit.NewState()}
+				dust = dm.Do(kit.Step{Env: &kit.Env{Kind: "deposit", User: "carol", Denom: tr.Denom, Amount: "3"}}).Tx.OK()
+			}
 			out := world.Recv(branch, w.Stack, p)
 			if out.Panicked() {
 				return fmt.Errorf("%s: probe with passthrough length %d panicked: %v", at, n, out.Panic)
+			}
+			if dust {
+				rec.Label("probe", "with a pre-existing balance on the orbiter account")
+				at += " (with a pre-existing orbiter balance)"
 			}
 			if n <= limit {
 				rec.Label("probe", "within the limit")
